@@ -17,4 +17,8 @@ R="$S/plain"; mkdir -p "$R"
 "$VERIF/bin/vinstr" -plain -src "${VERIF_REPO:-/repo}" -dst "$R"
 mkdir -p "$R/zverif/cmd" && cp -r "$VERIF/engine/zverif/cmd/c13run" "$R/zverif/cmd/"
 (cd "$R" && CGO_ENABLED=1 go build -race -o "$S/c13run" ./zverif/cmd/c13run)
+# warm the full binary build (cmd, webserver, benchmarks and their dependencies)
+F="$S/full"; mkdir -p "$F"
+rsync -a --exclude .git --exclude assets --exclude examples --exclude seed --exclude '*_test.go' "${VERIF_REPO:-/repo}/" "$F/"
+(cd "$F" && go build -o "$S/grits" .)
 echo setup ok
